@@ -35,7 +35,7 @@ func stateHash(env *Env) string {
 }
 
 func genC05(cs *CaseSet, rng *Rng, tier string, dir string) {
-	cs.Rule = "the requester's bitmap is neither all-zero nor all-ones (all-but-one-bit, single-bit, exactly-the-governing-set and governing-set-minus-one profiles); distinct by (class, bitmap)"
+	cs.Rule = "the requester's bitmap is neither all-zero nor all-ones (all-but-one-bit, single-bit, exactly-the-governing-set and governing-set-minus-one profiles); distinct by (class, bitmap); account-edit batches: >= 2 edits and a bitmap that is neither all-zero nor all-ones"
 	env := NewEnv(dir, EnvOpts{Board: "board text\r", Agreement: "a"})
 	env.StartDrain()
 	defer env.StopDrain()
@@ -305,6 +305,91 @@ func genC05(cs *CaseSet, rng *Rng, tier string, dir string) {
 	}
 	for _, j := range deferred {
 		runOne(j.cls, j.b, j.kind)
+	}
+	// batched account edits: ONE UpdateUser transaction with several sub-records on two logins (often the same one),
+	// by accounts holding every subset of create (14) / delete (15) / modify (17); the privilege governing an edit
+	// is the one for the effect it has on the account table as the earlier edits of the batch left it
+	nBatch := 120
+	if tier == "thorough" {
+		nBatch = 1500
+	}
+	for k := 0; k < nBatch; k++ {
+		serial++
+		logins := []string{fmt.Sprintf("ba%d", serial), fmt.Sprintf("bb%d", serial)}
+		init := []byte{byte(rng.Intn(2)), byte(rng.Intn(2))}
+		for i, l := range logins {
+			if init[i] == 1 {
+				env.Srv.AccountManager.Create(hotline.Account{Login: l, Name: "init", Password: hashEmpty})
+			}
+		}
+		subset := k % 8
+		var b hotline.AccessBitmap
+		if rng.Intn(2) == 0 {
+			b = all
+			for i, p := range []int{14, 15, 17} {
+				if subset&(1<<i) == 0 {
+					b[p/8] &^= 1 << (7 - p%8)
+				}
+			}
+		} else {
+			for i, p := range []int{14, 15, 17} {
+				if subset&(1<<i) != 0 {
+					b[p/8] |= 1 << (7 - p%8)
+				}
+			}
+		}
+		n := 1 + rng.Intn(4)
+		same := rng.Intn(3) != 0 // most batches keep naming one login
+		first := rng.Intn(2)
+		var enc []byte
+		var fields []hotline.Field
+		for i := 0; i < n; i++ {
+			l := first
+			if !same {
+				l = rng.Intn(2)
+			}
+			if rng.Intn(3) == 0 {
+				enc = append(enc, 0, byte(l), 0)
+				fields = append(fields, fn(hotline.FieldData, subRec(encField(hotline.FieldData, obfuscate([]byte(logins[l]))))))
+			} else {
+				tag := byte(i + 1)
+				enc = append(enc, 1, byte(l), tag)
+				fields = append(fields, fn(hotline.FieldData, subRec(
+					encField(hotline.FieldUserLogin, obfuscate([]byte(logins[l]))), encField(hotline.FieldUserName, []byte{'t', '0' + tag}),
+					encField(hotline.FieldUserPassword, []byte{0}), encField(hotline.FieldUserAccess, make([]byte, 8)))))
+			}
+		}
+		cc, _ := env.NewClient("~c~", b, "10.5.0.1:1")
+		env.TakeSent()
+		t := hotline.NewTransaction(hotline.TranUpdateUser, cc.ID, fields...)
+		res, panicked := callHandler(mobius.HandleUpdateUser, cc, &t)
+		env.TakeSent()
+		env.Srv.ClientMgr.Delete(cc.ID)
+		d := byte(0)
+		switch {
+		case panicked:
+			d = 3
+		case isErrReply(res):
+			d = 1
+		case len(res) == 0:
+			d = 2
+		}
+		final := make([]byte, 2)
+		for i, l := range logins {
+			if acc := env.Srv.AccountManager.Get(l); acc != nil {
+				switch {
+				case acc.Name == "init":
+					final[i] = 1
+				case len(acc.Name) == 2 && acc.Name[0] == 't':
+					final[i] = 1 + (acc.Name[1] - '0')
+				default:
+					final[i] = 255
+				}
+			}
+		}
+		var zero hotline.AccessBitmap
+		cs.Add(Case{Kind: "account-edit-batch", Ops: []Op{mkOp(4, "update-user-batch", b[:], init, enc)},
+			Obs: [][][]byte{{{d}, final}}, NonTrivial: n >= 2 && b != zero && b != all})
 	}
 	// field contents: crafted path fields ("." / ".." items, separators inside items, declared count off by one)
 	// against the upload-folder and drop-box rules; the EFFECT is observed (a drop box's content revealed, an
